@@ -355,6 +355,11 @@ pub fn c17(ctx: &mut Ctx) {
     }
 }
 
+/// Another 64-digit signature (not the given one).
+fn other_for_sig(good: &str) -> String {
+    good.chars().map(|ch| if ch == 'a' { 'b' } else if ch == '1' { '2' } else if ch == 'f' { 'e' } else { ch }).rev().collect()
+}
+
 fn extract_presented(c: &Case) -> String {
     for (n, v) in &c.headers {
         if n.eq_ignore_ascii_case("authorization") {
@@ -785,6 +790,43 @@ pub fn c17_levels_and_histories(ctx: &mut Ctx) {
         // b is another client's request: it does not carry a's valid signature
         let other: String = good.chars().map(|ch| if ch == 'a' { 'b' } else if ch == '1' { '2' } else { ch }).collect();
         set_signature(&mut b, &good, &other);
+        // (2') an over-long WRONG signature (70 zeros, the wrong one pasted twice): its refusal must not quote the valid one
+        {
+            let mut w = s.case.clone();
+            let wrong = if i % 2 == 0 { "0".repeat(70) } else { format!("{}{}", other_for_sig(&good), other_for_sig(&good)) };
+            set_signature(&mut w, &good, &wrong);
+            if let Some(ow) = observe(&w) {
+                ctx.rep.count("evaluations");
+                ctx.rep.count("evaluations.OBS_LONG");
+                if ow.class != "OK" {
+                    leak_scan(ctx, &ow, &w, &needles, "c17-leak-long-signature", "a wrong signature longer than 64 characters");
+                }
+            }
+        }
+        // (3) accepted requests that declare a payload hash of a special kind: nothing key-like in what is returned
+        if i % 4 == 0 {
+            let mut l3 = simple_logical(if i % 8 == 0 { Carrier::Header } else { Carrier::Query }, 1_440_938_160_000_000_000);
+            let declared = ["STREAMING-AWS4-HMAC-SHA256-PAYLOAD", "UNSIGNED-PAYLOAD", "STREAMING-UNSIGNED-PAYLOAD-TRAILER", "STREAMING-AWS4-HMAC-SHA256-PAYLOAD-TRAILER"][(i / 4) % 4];
+            l3.headers.push(("x-amz-content-sha256".into(), declared.as_bytes().to_vec()));
+            if i % 3 == 0 {
+                l3.signed.push("x-amz-content-sha256".into());
+            }
+            l3.s3 = i % 2 == 0;
+            let now3 = now_for(&l3, 0);
+            let s3 = sign_and_spell(&l3, &mut rng, &Spelling::plain(), now3);
+            if let Some(o3) = observe(&s3.case) {
+                ctx.rep.count("evaluations");
+                ctx.rep.count("evaluations.OBS_ACCEPTED");
+                let texts = [("returned value Debug", o3.returned.clone()), ("error Display", o3.err_display.clone())];
+                for (enc, needle) in encodings(&s3.key) {
+                    for (what, text) in &texts {
+                        if contains(text.as_bytes(), &needle) {
+                            ctx.rep.fail(Failure { kind: "ORACLE", op: "OBS".into(), class: "c17-leak-accepted".into(), input: s3.case.describe(), imp: format!("{}: {}", what, text.chars().take(400).collect::<String>()), model: String::new(), spec: format!("signing key as {}", enc), clause: format!("C17: the signing key ({}) appears in {} of an accepted request", enc, what) });
+                        }
+                    }
+                }
+            }
+        }
         if let (Some(_oa), Some(ob)) = (observe(&a), observe(&b)) {
             ctx.rep.count("evaluations");
             ctx.rep.count("evaluations.OBS_AFTER");
